@@ -1,8 +1,13 @@
 (* C02 -- each supported key adds exactly its documented podman option, value intact.
-   PARTIAL: theorems for the table-driven key kinds (single string, boolean, one-per-assignment) and their tables; the special
-   handlers, list/kv kinds and the whole-command frame and position clauses are decided by the direct oracle of
-   tools/props/C02.py on implementation output together with whole-service correspondence with the converter model. *)
-From QV Require Import Model.Base Generated.Tables Model.Unquote Model.Unit Model.Names Model.Convert Spec.Docs Proofs.C07 Proofs.C02.
+   Proved: the tables (every (key, option) pair found in the source is the documented pair of the documented kind); the frame of the
+   table-driven key kinds inside their loop (single string, boolean, one-per-assignment); and, for the container converter, the frame
+   in the WHOLE command (C02_container_string_key_frame): adding a first assignment of any of its single-valued string keys changes
+   the generated ExecStart= by exactly the insertion of [option; value] -- every other argument, before and after, is the same.
+   (Proofs/C02run.v: no other handler reads the key; every handler only appends, and what it appends does not depend on what is
+   already there.)  PARTIAL beyond that: the same whole-command frame for the other key kinds and unit types, the special handlers
+   and the position clauses are decided by the direct oracle of tools/props/C02.py on implementation output together with
+   whole-service correspondence with the converter model. *)
+From QV Require Import Model.Base Generated.Tables Model.Quote Model.Unquote Model.Unit Model.Names Model.Convert Spec.Docs Proofs.C07 Proofs.C02 Proofs.C02run.
 
 (* every (key, option) pair of the look-up tables found in the source today is the documented pair of the documented kind *)
 Theorem C02_tables :
@@ -67,3 +72,21 @@ Theorem C02_volume_pinned_refuted :
   exec_of (convert_one (s2l "/usr/bin/podman") (fun _ => false) true false vol_unit (s2l "/d/a.container") TContainer demo_tbl)
   = Some [s2l "/usr/bin/podman run --name systemd-%N --cidfile=%t/%N.cid --replace --rm --cgroups split --sdnotify=conmon -d -v /a:/b:ro:z img"].
 Proof. exact volume_pinned_refuted. Qed.
+
+(* ---- the whole container command ---- *)
+Theorem C02_container_string_key_frame : forall podman exists_path kill_fixed mount_nl u k0 flag0 raw c v path tbl svc1 sp1 t1 svc2 sp2 t2,
+  In (k0, flag0) pt_from_container_unit_string_keys ->
+  values_raw u c_CONTAINER_SECTION k0 = [] -> unquote_value raw = Some (c :: v) ->
+  from_container podman exists_path kill_fixed mount_nl u path tbl = COk (svc1, sp1, t1) ->
+  from_container podman exists_path kill_fixed mount_nl (add_entry u c_CONTAINER_SECTION k0 raw) path tbl = COk (svc2, sp2, t2) ->
+  exists before1 before2 p q,
+    vals svc1 SEC_S (s2l "ExecStart") = before1 ++ [quote_words (p ++ q)] /\
+    vals svc2 SEC_S (s2l "ExecStart") = before2 ++ [quote_words (p ++ [flag0; c :: v] ++ q)].
+Proof. exact container_string_key_frame_closed. Qed.
+
+Theorem C02_frame_example :
+  exec_of (convert_one (s2l "/usr/bin/podman") (fun _ => false) true false demo_unit (s2l "/d/a.container") TContainer demo_tbl)
+    = Some [s2l "/usr/bin/podman run --name systemd-%N --cidfile=%t/%N.cid --replace --rm --cgroups split --sdnotify=conmon -d img"] /\
+  exec_of (convert_one (s2l "/usr/bin/podman") (fun _ => false) true false (add_entry demo_unit c_CONTAINER_SECTION (s2l "Timezone") (s2l "UTC")) (s2l "/d/a.container") TContainer demo_tbl)
+    = Some [s2l "/usr/bin/podman run --name systemd-%N --cidfile=%t/%N.cid --replace --rm --cgroups split --tz UTC --sdnotify=conmon -d img"].
+Proof. exact frame_example. Qed.
